@@ -11,6 +11,13 @@ func (rt *runtime) cmplEvaluateNodeProgram(node *nodeProgram, eval bool) Value {
 	}
 	rt.cmplFunctionDeclaration(node.functionList)
 	rt.cmplVariableDeclaration(node.varList)
+	if eval {
+		// Eval code may run in the scope of its caller (a direct eval):
+		// the position of that activation is put back afterwards.
+		defer func(scop *scope, frm frame) {
+			scop.frame.file, scop.frame.offset = frm.file, frm.offset
+		}(rt.scope, rt.scope.frame)
+	}
 	rt.scope.frame.file = node.file
 	return rt.cmplEvaluateNodeStatementList(node.body)
 }
